@@ -538,3 +538,29 @@ Proof.
   destruct (store_is_pooled_mean_var dim X (map snd files) bessel Hne' HU Hn) as [m [v [E H]]].
   exists m, v. split; [|exact H]. rewrite cmd_anonymous by assumption. now rewrite E.
 Qed.
+
+(* ------------------------------------------------------------------------------ *)
+(* histories                                                                      *)
+(* ------------------------------------------------------------------------------ *)
+Lemma accumulate_all_app : forall dim a b st,
+  accumulate_all dim st (a ++ b) = bind (accumulate_all dim st a) (fun st' => accumulate_all dim st' b).
+Proof.
+  intros dim a b. induction a as [|x a IH]; intros st; [reflexivity|].
+  cbn [app accumulate_all]. destruct (accumulate dim st x); cbn [bind]; [apply IH|reflexivity].
+Qed.
+
+Lemma run_ops_history : forall dim ops live st outs,
+  accumulate_all dim None live = Ok st ->
+  run_ops dim st ops outs = history_ref dim live ops outs.
+Proof.
+  intros dim ops. induction ops as [|[x|del b] ops IH]; intros live st outs H.
+  - cbn [run_ops history_ref]. now rewrite H.
+  - cbn [run_ops history_ref]. rewrite accumulate_all_app, H. cbn [bind accumulate_all].
+    destruct (accumulate dim st x) as [s|e] eqn:E; cbn [bind]; [|reflexivity].
+    apply IH. rewrite accumulate_all_app, H. cbn [bind accumulate_all]. now rewrite E.
+  - cbn [run_ops history_ref]. rewrite H. cbn [bind].
+    destruct (store st b) as [mv|e]; [destruct del|]; apply IH; try assumption. reflexivity.
+Qed.
+
+Lemma run_ops_history0 : forall dim ops, run_ops dim None ops [] = history_ref dim [] ops [].
+Proof. intros. now apply run_ops_history. Qed.
